@@ -304,7 +304,13 @@ func prepareBatch(ctx *Ctx, res *Result, in *Input, variants []wl.Variant, epi i
 			text := wl.Render(s, wl.RenderOpts{Variant: v, Pkg: name, Epi: epi, Layout: layR})
 			u := &genUnit{SpecIdx: si, Variant: v, Name: name, Text: text}
 			tg := time.Now()
-			o := enga.Run(enga.Case{Text: text, Variant: v, Sched: sched, Mode: "gen"})
+			// a quarter of the parsers are generated the way the README's example does it, with the automaton drawn in the
+			// same run (-g): the option must not change the parser
+			graph := (in.Index+si+vi)%4 == 2
+			if graph {
+				res.Count("generations_with_-g", 1)
+			}
+			o := enga.Run(enga.Case{Text: text, Variant: v, Sched: sched, Mode: "gen", Graph: graph})
 			res.Count("ms_gen_run", int(time.Since(tg).Milliseconds()))
 			logObs(res, o)
 			res.SimTicks += o.Ticks
